@@ -702,3 +702,26 @@ impl<K: Ord, V: Clone + Default + KeyValue<K>> SetTree<K, V> {
         }
     }
 }
+
+#[cfg(feature = "verif")]
+impl<K: Ord, V: Clone + Default + KeyValue<K>> SetTree<K, V> {
+    pub fn verif_snapshot(&self) -> crate::verif::VerifSnapshot<V> {
+        crate::verif::VerifSnapshot {
+            root: self.root,
+            nodes: self
+                .store
+                .buffer
+                .iter()
+                .map(|n| crate::verif::VerifNode {
+                    parent: n.parent,
+                    left: n.left,
+                    right: n.right,
+                    red: n.color == Color::Red,
+                    entity: n.value.clone(),
+                })
+                .collect(),
+            unused: self.store.unused.clone(),
+            unused_capacity: self.store.unused.capacity(),
+        }
+    }
+}
